@@ -163,6 +163,7 @@ func checkSerialised(c *Ctx, prop string) {
 func init() {
 	register("C01", func(c *Ctx) {
 		hm := c.handlerModels()
+		checkProbeSuspectClaim(c, "C01")
 		checkWriters(c, "C01")
 		checkSerialised(c, "C01")
 		c.Assume("a suspicion timer exists only for a record in state suspect (discharged under C06), so clearing a timer for a non-suspect record is a no-op")
